@@ -2197,3 +2197,97 @@ create_remote_unix_server = Spec(
     ensures=[('remote-listener-recorded-under-its-path', _safe(remote_recorded(lambda c: c.arg('listen_path'))))],
     raises={'ChannelListenError': _safe(remote_unchanged), 'PacketDecodeError': _safe(remote_unchanged)})
 create_remote_unix_server.no_replay = True
+
+
+# =====================================================================================================
+#  10. the per-connection gate of a local forward: the nested tunnel_connection closures (accept_handler)
+# =====================================================================================================
+# "a connection is relayed only where permitted": whatever the application's accept_handler answers - directly or
+# through an awaitable - a falsy verdict refuses the connection (ChannelOpenError) and nothing is opened towards
+# the destination.  The closures are reached as 'Class.method.tunnel_connection'; their free variables (self,
+# accept_handler, destination) are bound by the setup hook.
+isaw_verdict = z3.Function('isawaitable_Verdict', opaque_sort('Verdict'), BoolS)
+
+
+def accept_handler_stub(cx):
+    """accept_handler(orig_host, orig_port): True / False / None, or an awaitable that yields the verdict"""
+    aw = cx.fresh('opaque:Verdict', 'pending_verdict')
+    ev = lambda v: ('handler', (v,))          # noqa: E731
+    return [Out(ret=VBool(True), event=ev(VBool(True))), Out(ret=VBool(False), event=ev(VBool(False))),
+            Out(ret=VNone, event=ev(VNone)), Out(ret=aw, assume=[isaw_verdict(aw.z)], event=ev(aw))]
+
+
+accept_handler_stub.modifies = ()
+
+
+def awaited_verdict_stub(cx):
+    return [Out(ret=VBool(True), event=('awaited', (VBool(True),))),
+            Out(ret=VBool(False), event=('awaited', (VBool(False),))),
+            Out(ret=VNone, event=('awaited', (VNone,)))]
+
+
+awaited_verdict_stub.modifies = ()
+
+
+def open_towards_dest_stub(cx):
+    return [Out(ret=VTuple([cx.fresh('opaque:Chan', 'chan'), cx.fresh('opaque:Sess', 'session')]),
+                event=('open_dest', tuple(cx.args))),
+            Out(exc=VExc('ChannelOpenError'), event=('open_dest', tuple(cx.args)))]
+
+
+open_towards_dest_stub.modifies = ()
+
+
+def verdict_of(c):
+    """the application's final answer on this path: None = not asked (no accept_handler)"""
+    h, a = c.events('handler'), c.events('awaited')
+    if len(h) > 1 or len(a) > 1:
+        return 'bad'
+    if not h:
+        return None
+    v = h[0][1][0]
+    if isinstance(v, VOpaque):           # awaitable: the verdict is what the await yields
+        return a[0][1][0] if a else 'bad'
+    return v if not a else 'bad'
+
+
+def relayed_only_where_permitted(c):
+    v = verdict_of(c)
+    opened = n(c, 'open_dest')
+    if v == 'bad' or opened > 1:
+        return z3.BoolVal(False)
+    asked = z3.Not(c.is_none(c.old_state.env['accept_handler']))
+    if v is None:
+        return z3.And(z3.Not(asked), z3.BoolVal(opened == 1 or c.raised is not None))
+    ok = c.truthy(v)
+    if opened:
+        return z3.And(asked, ok)                       # something was opened towards the destination: permitted
+    return z3.And(asked, z3.Not(ok), z3.BoolVal(c.raised == 'ChannelOpenError'))      # refused: nothing opened
+
+
+def closure_spec(method, cls, dest_vars, opener):
+    def setup(ex, st):
+        me = ex.new_object(st, cls, 'self')
+        st.env['self'] = me
+        ex.self_ref = me
+        st.env['accept_handler'] = ex.fresh(st, 'opt[obj:Handler]', 'accept_handler')
+        st.inputs['accept_handler'] = st.env['accept_handler']
+        for nm, t in dest_vars.items():
+            st.env[nm] = ex.fresh(st, t, nm)
+            st.inputs[nm] = st.env[nm]
+    sp = Spec(PROP, 'connection', f'{cls}.{method}.tunnel_connection',
+              params=dict(session_factory='opaque:Factory', orig_host='str', orig_port='int'),
+              classes={cls: {}, 'Handler': {}}, setup=setup,
+              stubs={'accept_handler': accept_handler_stub, 'await result': awaited_verdict_stub,
+                     'self.' + opener: open_towards_dest_stub},
+              always=[('relayed-only-where-the-accept-handler-permits(plain-or-awaited)',
+                       _safe(relayed_only_where_permitted))],
+              raises={'ChannelOpenError': True})
+    sp.no_replay = True          # a closure cannot be called from outside its method
+    return sp
+
+
+tunnel_local_port = closure_spec('forward_local_port', 'SSHConnection', dict(dest_host='str', dest_port='int'),
+                                 'create_connection')
+tunnel_local_port_to_path = closure_spec('forward_local_port_to_path', 'SSHClientConnection', dict(dest_path='str'),
+                                         'create_unix_connection')
